@@ -1126,6 +1126,7 @@ func checkC06(p *Prog, r *Report) {
 	ruleOptionalBanner(p, m, r)
 	ruleHAFailClosed(p, r)
 	ruleBannerPatternComplete(p, r)
+	ruleDeferredErrorPreserved(p, r, sessionPkgs)
 	r.rule("R06.10", "The conditions under which an unmanaged-device finding is recorded are the audited ones (tables/guards.tsv rows for C06): ASA/IOS — a banner check is configured and the pattern does not occur in the login banner; Linux — a check is configured and grep of /etc/issue printed nothing; PAN-OS — the display-name of the vsys does not contain 'netspoc'. In particular, without a configured banner check no finding is recorded and approve works normally.")
 	ruleGuardTable(p, r, "R06.10", "C06")
 	ruleAllowListedCommands(p, m, r, "R06.6")
